@@ -50,6 +50,16 @@ def Gen.take (mix : Nat → Nat → Nat) : Nat → Gen → List Nat × Gen
     let rest := Gen.take mix m r.2
     (r.1 :: rest.1, rest.2)
 
+/-- `torch.manual_seed(seed)` applied to a Python int (torch/random.py:32-47: `seed = int(seed)`, then the default
+CPU generator's `manual_seed`, which unpacks an unsigned 64-bit word): values in `[-2^63, 2^64)` are accepted and
+reduced modulo `2^64` (so `-1` and `2^64 - 1` are the same seed word), everything else raises
+(`ValueError: Overflow when unpacking long long`, torch 2.14).  `qucumber.set_random_seed` passes its argument
+through unchanged (qucumber/__init__.py:27-38), so this is the set of seeds the library accepts and the only
+identification of seeds it may make.  (That torch's mt19937 initialisation then only reads the low 32 bits of
+the word is a fact about the STREAM function, see `tokenSem.mix`; the generator state keeps the full word.) -/
+def seedWord (s : Int) : Option Nat :=
+  if -9223372036854775808 ≤ s ∧ s < 18446744073709551616 then some (s % 18446744073709551616).toNat else none
+
 /-! ### architectures and the calls made to torch's random functions -/
 
 /-- `PositiveWaveFunction` | `ComplexWaveFunction` | `DensityMatrix` -/
@@ -242,8 +252,9 @@ def fitCalls (A : Arch) (c : FitCfg) : List Call × Option Err :=
 
 /-- the public operations (and, last four, foreign use of the other two random sources). -/
 inductive Op where
-  /-- `qucumber.set_random_seed(s, cpu, gpu=False)` (qucumber/__init__.py:27-38) -/
-  | setSeed (s : Nat) (cpu : Bool)
+  /-- `qucumber.set_random_seed(s, cpu, gpu)` for ANY Python int `s` (qucumber/__init__.py:27-38); on a process
+  without CUDA the `gpu` argument has no effect whatever its value -/
+  | setSeed (s : Int) (cpu : Bool)
   /-- user code drawing `m` values from torch's global generator (`torch.rand(m)`) -/
   | burn (m : Nat)
   /-- `PositiveWaveFunction(n, h)` / `ComplexWaveFunction(n, h)` / `DensityMatrix(n, h, a)` -/
@@ -393,8 +404,13 @@ def slotStep {P O : Type} (S : Sem P O) (st : St P) (op : Op) (i : Nat) (ob : Ob
 def step {P O : Type} (S : Sem P O) (st : St P) (op : Op) : St P × Out O :=
   match op with
   | .setSeed s cpu =>
-    -- `if cpu: torch.manual_seed(seed)`; the gpu branch is dead on a CPU-only process
-    ((if cpu then { st with torchGen := ⟨s, 0⟩ } else st), .none)
+    -- `if cpu: torch.manual_seed(seed)`; the gpu branch is dead on a CPU-only process.  The seed is handed to torch
+    -- as it is: accepted iff torch accepts it (`seedWord`), and then the generator restarts at the stream of that word.
+    if cpu then
+      match seedWord s with
+      | some w => ({ st with torchGen := ⟨w, 0⟩ }, .none)
+      | Option.none => (st, .err .ValueError)
+    else (st, .none)
   | .burn m => ({ st with torchGen := (Gen.take S.mix m st.torchGen).2 }, .none)
   | .seedNumpy s => ({ st with numpyGen := ⟨s, 0⟩ }, .none)
   | .perturbNumpy m => ({ st with numpyGen := (Gen.take S.mix m st.numpyGen).2 }, .none)
@@ -491,7 +507,7 @@ def FitCfg.code (c : FitCfg) : List Nat :=
 /-- injective-enough encoding of an operation WITHOUT its slot (the value an operation returns
 does not depend on which Python variable holds the state). -/
 def Op.code : Op → List Nat
-  | .setSeed s cpu => [1, s, if cpu then 1 else 0]
+  | .setSeed s cpu => [1, s.toNat, (-s).toNat, if cpu then 1 else 0]
   | .burn m => [2, m]
   | .construct k n h a => [3, k.code, n] ++ optCode h ++ optCode a
   | .reinit _ => [4]
@@ -510,9 +526,12 @@ def Op.code : Op → List Nat
   | .seedPy s => [17, s]
   | .perturbPy m => [18, m]
 
-/-- the token semantics: every value is the hash of what it was computed from. -/
+/-- the token semantics: every value is the hash of what it was computed from.
+The stream of a seed word depends on its low 32 bits only: torch's CPU generator initialises its mt19937 engine from
+`uint32(seed)` (measured directly on the installed torch by harness/c14.py: `Generator().manual_seed(a)` and
+`manual_seed(b)` give the same `torch.rand` stream exactly when `a ≡ b (mod 2^32)`); the theorems hold for every `mix`. -/
 def tokenSem : Sem Nat Nat where
-  mix := fun s p => hashList [99, s, p]
+  mix := fun s p => hashList [99, s % 4294967296, p]
   init := fun A d => hashList (101 :: A.code ++ d)
   fit := fun A c p d => hashList (102 :: A.code ++ c.code ++ p :: d)
   loadMismatch := fun A p A' p' => hashList (103 :: A.code ++ p :: A'.code ++ [p'])
